@@ -2,18 +2,20 @@
 from __future__ import annotations
 
 from ..prop import Layer, Prop
-from .conc import make_execute, scenarios
+from .conc import goaway_scenarios, make_execute, scenarios
 
 RULE = ("Same generated concurrent histories as C01, biased to small limits (max_connections 1-3, 2-5 callers, 1-3 origins, HTTP/1.1 and HTTP/2, "
         "direct and proxied, faults, a cancellation, idle evictions for other origins). Oracle, evaluated after EVERY simulated network op and at "
         "every quiescence: len(pool.connections) <= N, and the number of open streams - not counting streams of connection objects that had "
-        "already left pool.connections and carry no request byte after that moment - is <= N. Non-trivial: some request was queued and a "
+        "already left pool.connections and carry no request byte after that moment - is <= N. Second layer: HTTP/2-only histories in which the peer always sends a truthful GOAWAY at a drawn event "
+        "while a caller holds a response open (a connection that stops accepting requests but still carries streams). Non-trivial: some request was queued and a "
         "connection left the pool or a fault/cancellation occurred; distinct = distinct scenario.")
 
 PROP = Prop(
     "C04", level="exploration", rule=RULE,
     layers=[Layer("histories", strategy=lambda: scenarios(max_callers=5, limits=(1, 1, 2, 2, 3)), execute=make_execute("C04"),
-                  budget={"quick": 3000, "thorough": 60000})],
+                  budget={"quick": 3000, "thorough": 60000}),
+            Layer("h2-goaway", strategy=goaway_scenarios, execute=make_execute("C04"), budget={"quick": 1200, "thorough": 30000})],
     assumptions=["pool.connections is sampled at every op boundary of the simulated network and at every quiescence",
                  "a stream still being established counts against the limit (it is reachable from no evicted connection)"],
     explanation="Schedule space sampled; the bound is checked at every op boundary of every run (coverage.metrics.monitor_checks).",
